@@ -43,10 +43,10 @@ def cli_truth_replay(atom, tree, expect_present):
     return rep
 
 
-def fam_tables(sess):
+def fam_tables(sess, types=('Int', 'Float', 'Bool', 'DateTime')):
     prog = sess.prog
     ex = sess.executor(E.EVAL_OVERRIDES)
-    for ty in ('Int', 'Float', 'Bool', 'DateTime'):
+    for ty in types:
         fam = 'table/' + ty
         ops = list(REF_DT) if ty == 'DateTime' else list(REF[ty])
         for op in ops:
